@@ -13,7 +13,54 @@ C13_KINDS = {"NumGateParamsError", "NumGateQubitsError", "NumDefParamsError", "M
              "ReturnInGlobalScopeError", "IncompatibleTypesError"}
 
 
+def ambiguous_else(prog):
+    """The instruction list is linear: an `else` is meant for the if statement that was completed last at the current
+    level.  When that if has an un-braced body that itself ends in an else-less if (`if (a) if (b) x; else y;`) the
+    rendered text means something else (the else binds to the nearest if), so the program is not evaluated.
+    Flags per level for the statement completed last: d = ends in an else-less if reachable without crossing a brace,
+    e = is an else-less if to which an else can be attached without ambiguity."""
+    flags = [[False, False]]
+    opened = []   # [kind, braced]
+    def complete(d, e):
+        flags[-1] = [d, e]
+        while opened and not opened[-1][1]:
+            close()
+    def close():
+        kind, braced = opened.pop()
+        bd = flags.pop()[0]
+        if kind == "if":
+            d, e = True, (braced or not bd)
+        elif kind in ("else", "while", "for"):
+            d, e = (False if braced else bd), False
+        else:
+            d, e = False, False
+        flags[-1] = [d, e]
+    for ins in prog:
+        op = ins["op"]
+        if op == "else":
+            if not flags[-1][1]:
+                return True
+        if op in ("if", "else", "while", "for", "switch", "case", "default", "gate", "def"):
+            opened.append([op, ins.get("block", True) is not False]); flags.append([False, False])
+        elif op == "close":
+            close()
+            while opened and not opened[-1][1]:
+                close()
+        elif op in ("annot",):
+            pass
+        else:
+            complete(False, False)
+    return False
+
+
 def generate(c):
+    cases, stats = generate_all(c)
+    kept = [x for x in cases if not ambiguous_else(x["prog"])]
+    stats["skipped_ambiguous_else"] = len(cases) - len(kept)
+    return kept, stats
+
+
+def generate_all(c):
     r = run_tlc("analyzer", "MCAnalyzer", "MCAnalyzer_bfs.cfg", workers=8, timeout=2400, xss="512m", cache_key="bfs", keep_tags={"CASE"}, coverage=False)
     if not r.ok:
         c.tool_error(f"Analyzer BFS failed: {r.violated} {r.error_text} {r.raw_tail[-800:]}")
@@ -41,6 +88,18 @@ def generate(c):
         sw = sw[::(len(sw) // 12000 + 1)]
     cases += sw
     stats["focus_switch_programs"] = len(sw)
+    # scoping of braced and un-braced bodies: every program of <= 5 (thorough 6) statements over decl / use / if / else / while / for
+    sc = run_tlc("analyzer", "MCAnalyzer", "MCAnalyzer_scope.cfg" if c.quick else "MCAnalyzer_scope6.cfg", workers=8, timeout=2400, xss="512m", cache_key="scope",
+                 keep_tags={"CASE"}, coverage=False)
+    if not sc.ok:
+        c.tool_error(f"Analyzer focus family (scope) failed: {sc.violated} {sc.error_text} {sc.raw_tail[-800:]}")
+    scp, seens = [], set()
+    for x in sc.tagged.get("CASE", []):
+        key = json.dumps(x["prog"], sort_keys=True)
+        if key not in seens and any(i["op"] in ("if", "while", "for") for i in x["prog"]):
+            seens.add(key); scp.append(x)
+    cases += scp
+    stats["focus_scope_programs"] = len(scp)
     nsim = 80 if c.quick else 2000
     # the simulation is deterministic for a seed: cached so that the five analyser checks share one TLC run per (tier, seed)
     s = run_tlc("analyzer", "MCAnalyzer", "MCAnalyzer_sim.cfg", workers=1, timeout=7200, xss="512m", simulate=nsim, depth=14, seed=c.seed, keep_tags={"CASE"},
@@ -58,6 +117,8 @@ def refs_of(sk, out):
     if isinstance(sk, list):
         if sk and sk[0] == "Identifier":
             out.append(sk[1]); return
+        if sk and sk[0] == "Indexed":
+            out.append(sk[1]); refs_of(sk[2], out); return
         if sk and sk[0] in ("DeclareClassical", "DeclareQuantum", "GateCall", "For", "GateDefinition", "DefStmt"):
             out.append(("decl:" + sk[0], json.dumps(sk[1])))
             if sk[0] in ("GateDefinition",):
